@@ -47,7 +47,8 @@ theorem bspline_pou_finset (T : Nat → Rat) (hT : Monotone T) (p j0 : Nat) (x :
     ∑ i ∈ Finset.range (p+1), bspline T p (j0+i) x = 1 := by
   induction p generalizing j0 with
   | zero =>
-    simp only [Finset.sum_range_one, bspline, Nat.add_zero] at *
+    rw [show (0 + 1 : Nat) = 1 from rfl, Finset.sum_range_one]
+    simp only [bspline, Nat.add_zero] at *
     rw [if_pos ⟨h1, h2⟩]
   | succ p ih =>
     -- split the recursion into the two families of terms
